@@ -288,7 +288,13 @@ def registerCallback (promiseId cbId recv : String) (mesg : Mesg) (timeout : Int
             else if n == 1 then
               .done (some (.callback S_CREATED (some p)
                 (some { id := cbId, promiseId := promiseId, recv := recv, mesg := mesg, timeout := timeout, createdOn := createdOn })))
-            else .done (some (.callback S_OK (some p) none))
+            else
+              -- no row inserted: the registration exists already, or the promise completed meanwhile — read it again
+              .yield [.store [.readPromise { id := promiseId }]] fun _ cpls3 =>
+                match readPromiseRow cpls3 with
+                | .err => errResp S_AIO_STORE
+                | .one r2 => .done (some (.callback S_OK (some r2.toPromise) none))
+                | _ => .panic "createCallback: promise must still exist"
           | _ => .panic "createCallback: malformed completion"
       else .done (some (.callback S_OK (some p) none))
 
